@@ -776,6 +776,29 @@ static void phase_tolerance()
     }
 }
 
+// ---- phase B: blobs that are views of one shared buffer (same data pointer, different lengths; different offsets of one buffer)
+static void phase_blob_views()
+{
+    if(!rp_phase("B")) return;
+    static uint8_t store[6] = {1, 0, 2, 1, 0, 2};
+    for(int oa = 0; oa <= 3; oa += 3) for(int la = 0; la <= 3; ++la) for(int ob = 0; ob <= 3; ob += 3) for(int lb = 0; lb <= 3; ++lb) {
+        std::string cid = "B|" + std::to_string(oa) + "|" + std::to_string(la) + "|" + std::to_string(ob) + "|" + std::to_string(lb);
+        if(vp::ctx().shard != 0 || !vp::want(cid)) continue;
+        vp::eval(); vp::state(); vp::nontrivial(vp::fnv(cid));
+        AV a = av0('b'), b = av0('b'); a.val.b.len = la; a.val.b.data = store + oa; b.val.b.len = lb; b.val.b.data = store + ob;
+        int e1 = rtosc_arg_vals_eq(&a, &b, 1, 1, nullptr), e2 = rtosc_arg_vals_eq(&b, &a, 1, 1, nullptr), c1 = rtosc_arg_vals_cmp(&a, &b, 1, 1, nullptr), c2 = rtosc_arg_vals_cmp(&b, &a, 1, 1, nullptr);
+        vp::transition(4);
+        // content: the first la / lb bytes of {1,0,2}: equal iff la == lb; the shorter one is a proper prefix and comes first
+        int want = la < lb ? -1 : la > lb ? 1 : 0;
+        char d[160]; snprintf(d, sizeof d, "blob views of one buffer: (offset %d, len %d) vs (offset %d, len %d): eq=%d/%d cmp=%d/%d", oa, la, ob, lb, e1, e2, c1, c2);
+        const std::string cls = oa == ob ? "same-data-pointer" : "same-buffer-other-offset";
+        if((e1 != 0) != (want == 0) || (e2 != 0) != (want == 0)) vp::violation("eq-blob|shared-storage|" + cls, cid, d);
+        else if(sgn(c1) != want || sgn(c2) != -want) vp::violation("order-blob|shared-storage|" + cls, cid, d);
+        vp::outcome("blob-views:" + cls);
+    }
+    vp::bound("blob_views", "blobs of length 0..3 that are views of one buffer {1,0,2,1,0,2} at offsets 0 and 3: all pairs");
+}
+
 int main(int argc, char **argv)
 {
     vp::init(argc, argv, "C16");
@@ -815,5 +838,6 @@ int main(int argc, char **argv)
     phase_ranges(maxlen);
     phase_array_runs();
     phase_tolerance();
+    phase_blob_views();
     return vp::finish();
 }
